@@ -24,16 +24,21 @@ Local Open Scope list_scope.
      - OLit tagged int64 / float32 / bool by Python type   when no value binds the type_str,
    and in every case d is a dtype C12's specification assigns: spec_dtype others l p d (by AutocastProofs.builder_eq_spec).
    Not covered: the payload (shape, bytes) and the cache key of the constant stay observed (C12: np_cast,
-   cache_never_conflates); a literal the builder cannot convert (C12's Overflow finding) is outside promote_call. *)
-Theorem C18_promoted_constant_dtype_by_spec : forall c ops,
+   cache_never_conflates); a literal the builder cannot convert (C12's Overflow finding) is outside promote_call.
+   `named` is C12's variant flag of the builder (Autocast.promote_builder_v: true after repo fix 4f6059b, uncached
+   constants get a generated name instead of raising); the statement holds for both variants.  Literal positions are
+   characterised for PLAIN literals (C12's plainb: a scalar or homogeneous list whose ir.tensor dtype is the
+   Python-type default), exactly the restriction of C12_builder_eq_spec; a non-plain literal (e.g. [1.5, 2]) is
+   compared with C12's model by the tie only. *)
+Theorem C18_promoted_constant_dtype_by_spec : forall named c ops,
   A.schema_okb (tc_schema c) = true ->
-  promote_call c = Some ops ->
+  promote_call named c = Some ops ->
   exists slots tps,
     slots_of c = A.OK slots /\ tps = combine (tc_args c) (map snd slots) /\
     List.length ops = List.length (tc_args c) /\
     (forall i id d kn, nth_error (tc_args c) i = Some (TVal id d kn) -> nth_error ops i = Some (OVal id)) /\
     (forall i, nth_error (tc_args c) i = Some TNone -> nth_error ops i = Some ONone) /\
-    (forall i t, nth_error (tc_args c) i = Some (TLit t) ->
+    (forall i t, nth_error (tc_args c) i = Some (TLit t) -> A.plainb (tl_lit t) = true ->
        exists pre p post,
          slots = pre ++ (A.ALit (tl_lit t), p) :: post /\ List.length pre = i /\
          match binder tps p with
@@ -67,13 +72,14 @@ Print Assumptions C18_looked_up_schema_ok.
 (* the operands the reading `creplay` uses at a derived call are the typed reading `targs`: a literal is
    `tensor (spec_fn slots l p) payload` -- the constant of the element type C12's executable specification assigns --,
    or, next to a binding sibling of unknown type, CastLike(tensor <Python-type dtype> payload, sibling).
-   Hypotheses: well-formed schema, well-typed call (C12's `uniform`), a literal tagged (d, payload) denotes `tensor d payload`. *)
+   Hypotheses: well-formed schema, well-typed call (C12's `uniform`), plain literals (C12's plainb), a literal tagged (d, payload) denotes `tensor d payload`. *)
 Theorem C18_derived_call_reads_typed :
   forall V sem (tensor : A.dtype -> string -> V) lit_val,
   (forall d p, lit_val (lit_tag d p) = tensor d p) ->
-  forall c slots ops,
+  forall named c slots ops,
   A.schema_okb (tc_schema c) = true -> slots_of c = A.OK slots -> A.uniform slots ->
-  promote_call c = Some ops ->
+  all_plain c = true ->
+  promote_call named c = Some ops ->
   forall E, cargs V sem lit_val E ops = targs V sem tensor E c.
 Proof. exact derived_reads_typed. Qed.
 Print Assumptions C18_derived_call_reads_typed.
@@ -103,30 +109,30 @@ Print Assumptions C18_build_computes_typed_trace_partial.
 (* ------------------------------------------------------------------ non-vacuity *)
 (* Add(x: float known, 2) -> float32 constant *)
 Example C18_lits_add_known :
-  promote_call (TC (s_of "Add") [TVal 0 A.FLOAT true; TLit (tl two "const_2_f32" "const_2_f32" "():00000040")]) =
+  promote_call true (TC (s_of "Add") [TVal 0 A.FLOAT true; TLit (tl two "const_2_f32" "const_2_f32" "():00000040")]) =
   Some [OVal 0; OLit (Lit "const_2_f32" (LNFixed "const_2_f32") "float32:():00000040")].
 Proof. exact ex_add_known. Qed.
 
 (* Add(x: type unknown, 2) -> CastLike(int64 constant, x) *)
 Example C18_lits_add_unknown :
-  promote_call (TC (s_of "Add") [TVal 3 A.FLOAT false; TLit (tl two "const_2_i64" "const_2_i64" "():0200000000000000")]) =
+  promote_call true (TC (s_of "Add") [TVal 3 A.FLOAT false; TLit (tl two "const_2_i64" "const_2_i64" "():0200000000000000")]) =
   Some [OVal 3; OLitCast (Lit "const_2_i64" (LNFixed "const_2_i64") "int64:():0200000000000000") 3].
 Proof. exact ex_add_unknown. Qed.
 
 (* Max, homogeneous variadic, literals at the first / a middle / the last position: the first value binds *)
 Example C18_lits_max_positions :
-  promote_call (TC (s_of "Max") [TLit (tl two "a" "a" "p"); TVal 5 A.FLOAT false; TLit (tl half "b" "b" "q"); TVal 1 A.FLOAT true;
+  promote_call true (TC (s_of "Max") [TLit (tl two "a" "a" "p"); TVal 5 A.FLOAT false; TLit (tl half "b" "b" "q"); TVal 1 A.FLOAT true;
                                  TLit (tl (A.LScalar (A.SBool true)) "c" "c" "r")]) =
   Some [OLitCast (Lit "a" (LNFixed "a") "int64:p") 5; OVal 5; OLitCast (Lit "b" (LNFixed "b") "float32:q") 5; OVal 1;
         OLitCast (Lit "c" (LNFixed "c") "bool:r") 5] /\
-  promote_call (TC (s_of "Max") [TLit (tl two "a" "a" "p"); TVal 1 A.FLOAT true; TVal 5 A.FLOAT false;
+  promote_call true (TC (s_of "Max") [TLit (tl two "a" "a" "p"); TVal 1 A.FLOAT true; TVal 5 A.FLOAT false;
                                  TLit (tl (A.LScalar (A.SBool true)) "c" "c" "r")]) =
   Some [OLit (Lit "a" (LNFixed "a") "float32:p"); OVal 1; OVal 5; OLit (Lit "c" (LNFixed "c") "float32:r")].
 Proof. exact ex_max_positions. Qed.
 
 (* Loop, heterogeneous variadic v_initial: the carried literals keep int64 / float32 / bool *)
 Example C18_lits_loop_hetero :
-  promote_call (TC (s_of "Loop") [TLit (tl two "t" "t" "p"); TNone; TVal 0 A.FLOAT true; TLit (tl two "a" "a" "q");
+  promote_call true (TC (s_of "Loop") [TLit (tl two "t" "t" "p"); TNone; TVal 0 A.FLOAT true; TLit (tl two "a" "a" "q");
                                   TLit (tl half "b" "b" "r"); TLit (tl (A.LList (A.SBool true) [A.SBool false]) "c" "c" "s")]) =
   Some [OLit (Lit "t" (LNFixed "t") "int64:p"); ONone; OVal 0; OLit (Lit "a" (LNFixed "a") "int64:q");
         OLit (Lit "b" (LNFixed "b") "float32:r"); OLit (Lit "c" (LNFixed "c") "bool:s")].
@@ -134,9 +140,9 @@ Proof. exact ex_loop_hetero. Qed.
 
 (* no tensor sibling *)
 Example C18_lits_no_sibling :
-  promote_call (TC (s_of "Reshape") [TVal 0 A.FLOAT true; TLit (tl (A.LList (A.SInt (-1)) []) "s" "s" "p")]) =
+  promote_call true (TC (s_of "Reshape") [TVal 0 A.FLOAT true; TLit (tl (A.LList (A.SInt (-1)) []) "s" "s" "p")]) =
   Some [OVal 0; OLit (Lit "s" (LNFixed "s") "int64:p")] /\
-  promote_call (TC (s_of "Where") [TVal 0 A.BOOL true; TLit (tl half "a" "a" "p"); TLit (tl half "a" "a" "p")]) =
+  promote_call true (TC (s_of "Where") [TVal 0 A.BOOL true; TLit (tl half "a" "a" "p"); TLit (tl half "a" "a" "p")]) =
   Some [OVal 0; OLit (Lit "a" (LNFixed "a") "float32:p"); OLit (Lit "a" (LNFixed "a") "float32:p")].
 Proof. exact ex_no_sibling. Qed.
 
@@ -150,3 +156,15 @@ Example C18_lits_typed_trace_hypotheses_satisfiable :
   (forall d p, zl (lit_tag d p) = (fun d p => zl (lit_tag d p)) d p) /\
   creplay Z zsem ztruth ztrip Z.of_nat zof_bool 100 zl 1 ex_lit_trace [5; 7]%Z [2; 3] = Some [24; 175]%Z.
 Proof. exact ex_typed_trace_hyps. Qed.
+
+(* the two builder variants: a non-plain literal (a list mixing float and int leaves the cached path) made the builder
+   raise as read and is promoted with ir.tensor's dtype after repo fix 4f6059b; on plain literals they agree *)
+Example C18_lits_not_plain :
+  let mixed := A.LList (A.SFloat false 3 1) [A.SInt 2] in
+  A.plainb mixed = false /\
+  promote_call false (TC (s_of "Add") [TVal 0 A.FLOAT true; TLit (tl mixed "k" "k" "p")]) = None /\
+  promote_call true (TC (s_of "Add") [TVal 0 A.FLOAT true; TLit (tl mixed "k" "k" "p")]) =
+  Some [OVal 0; OLit (Lit "k" (LNFixed "k") "float32:p")] /\
+  promote_call false (TC (s_of "Add") [TVal 0 A.FLOAT true; TLit (tl two "k" "k" "p")]) =
+  promote_call true (TC (s_of "Add") [TVal 0 A.FLOAT true; TLit (tl two "k" "k" "p")]).
+Proof. exact ex_not_plain. Qed.
